@@ -38,8 +38,8 @@
 (***************************************************************************************************************)
 EXTENDS Integers, Sequences, FiniteSets, TLC
 
-OHC == 1 .. 9
-OCalls == 1 .. 9
+OHC == 1 .. 16
+OCalls == 1 .. 24
 LongSleep == 13000
 Flavs == {"h", "s"}
 
@@ -208,8 +208,10 @@ OShould(o, e) ==
             ELSE OReject(o)
     ELSE OReject(o)
 
+\* Close: owed by the cleaner after a removal; or of a HostClient whose hook failed (it never entered the map)
 OClose(o, e) ==
-    IF e.hc \in OHC /\ o.cl[o.hcs[e.hc].f].must = e.hc /\ o.cl[o.hcs[e.hc].f].mg = e.g
+    IF e.hc \in OHC /\ o.hcs[e.hc].st = "failed" THEN [o EXCEPT !.hcs[e.hc].st = "failedclosed"]
+    ELSE IF e.hc \in OHC /\ o.cl[o.hcs[e.hc].f].must = e.hc /\ o.cl[o.hcs[e.hc].f].mg = e.g
     THEN [o EXCEPT !.cl[o.hcs[e.hc].f].must = 0] ELSE OReject(o)
 
 \* ---------------------------------------------------------------- Client.CloseIdleConnections
@@ -242,7 +244,7 @@ OObserve(o, e) ==
        /\ e.pool <= e.total /\ e.total <= o.max /\ e.pool >= 0
     THEN o ELSE OReject(o)
 OObsPre(o, e) == [o EXCEPT !.ob = [gone |-> {h \in OHC : o.hcs[h].st = "removed"},
-                                   failed |-> {h \in OHC : o.hcs[h].st = "failed"}, live |-> AllMapHcs(o)]]
+                                   failed |-> {h \in OHC : o.hcs[h].st \in {"failed", "failedclosed"}}, live |-> AllMapHcs(o)]]
 OObsCount(o, e) ==
     IF /\ e.hc \in OHC /\ e.ivs >= 20
        /\ (e.hc \in o.ob.gone \cup o.ob.failed => e.n = 0)
